@@ -94,7 +94,20 @@ class Ctx:
             if self.pool is None:
                 self.pool = mp.get_context("fork").Pool(NPROC)
             cs = chunksize or max(1, min(64, len(jobs) // (NPROC * 8)))
-            results = self.pool.map(_exec, jobs, chunksize=cs)
+            if os.environ.get("VERIF_FAILFAST"):
+                # development aid (tools/mutsweep.py): stop at the first unlisted fail instead of finishing the exploration
+                kf, prop = findings.load(), self.mod.PROPERTY
+                results = []
+                for c, r in zip(cells, self.pool.imap(_exec, jobs, chunksize=min(cs, 8))):
+                    results.append(r)
+                    for f in r["fails"]:
+                        feats = dict(r.get("features") or {}, **(f.get("features") or {}))
+                        if findings.match(kf, prop, feats, f) is None:
+                            print(f"VIOLATION property={prop} replay=- (fail-fast)\n   sub={f['sub']} symptom={f['symptom'][:200]}", flush=True)
+                            self.pool.terminate()
+                            os._exit(1)
+            else:
+                results = self.pool.map(_exec, jobs, chunksize=cs)
         if record:
             for c, r in zip(cells, results):
                 self.record(fname, c, r)
